@@ -88,6 +88,10 @@ fn check_e1303_vehicle_breaks_time_is_correct(ctx: &ValidationContext) -> Result
                             VehicleBreak::Optional { time: VehicleOptionalBreakTime::TimeWindow(tw), .. } => {
                                 Some(get_time_window_from_vec(tw))
                             }
+                            VehicleBreak::Optional { time: VehicleOptionalBreakTime::TimeOffset(offsets), .. } => {
+                                // NOTE: an offset break time must have start and end
+                                if offsets.len() == 2 { None } else { Some(None) }
+                            }
                             VehicleBreak::Required {
                                 time: VehicleRequiredBreakTime::OffsetTime { earliest, latest },
                                 duration,
